@@ -1124,6 +1124,7 @@ def run_limiter(case: dict) -> Result:
     variant = comp if comp == "ThreadPool" else f"Server/{model_kind}"
     burst = simultaneous([q["at"] for q in reqs])
     limit_changed = [False]
+    prev_limit = [limit0]
 
     def flag(oracle, shape, detail, witness=None):
         k = (oracle, shape)
@@ -1175,6 +1176,7 @@ def run_limiter(case: dict) -> Result:
 
     class Knob(Entity):
         def handle_event(self, event):
+            prev_limit[0] = min(prev_limit[0], model.limit)  # lowest limit so far
             model.set_limit(event.context["metadata"]["limit"])
             limit_changed[0] = True
             return None
@@ -1234,10 +1236,14 @@ def run_limiter(case: dict) -> Result:
         res.count("end_of_instant_checks")
         active, avail, lim, done, rej = counters()
         if prim.depth > 0 and avail >= head_weight():
-            if burst:
+            if limit_changed[0] and active >= prev_limit[0]:
+                shape = "after-limit-increase"  # the free slots exist only because the limit was raised
+            elif burst:
                 shape = "same-instant-burst"
             elif limit_changed[0]:
                 shape = "after-limit-increase"
+            elif model_kind == "weighted" and any(q.get("weight", 1) > 1 for q in reqs):
+                shape = "weighted-release-frees-several-units"
             else:
                 shape = "no-burst"
             flag("head-waiter-fits-free-capacity", shape, f"{where}: queue depth={prim.depth}, active={active}, available={avail}, limit={lim}")
